@@ -57,6 +57,13 @@ PROP = {
             "facade on random pairs of orderings near the boundary (equal, one a prefix of the other either way, one key differing in "
             "column, direction or kind), must answer what Plan.satisfies answers (= the required ordering leads the delivered one, "
             "Thm.C06.ordering_satisfies_iff_prefix). "
+            "Join operator cases (`jop <two tables> | <their join>`, 1 200 / 12 000 per run): two inputs of 0-8 rows (INT, BIGINT, "
+            "INT against BIGINT, TEXT key columns from 2-4 distinct values: duplicates; NULL keys on both sides in most cases), "
+            "every join kind, conditions that are one or two column = column conjuncts (70 %), the same plus a further conjunct, "
+            "theta, or absent: the join is handed to the implementation rules through the facade and EVERY physical operator they "
+            "offer (nested loop always; hash join and merge join over the Sort executors it requires for equi conditions) is run "
+            "directly on the two inputs — whatever the cost model would choose — and each must return the reference evaluator's "
+            "rows (tags jop.*). "
             "Every case is non-trivial; distinct = distinct case line.",
     "assumptions": [
         "indexed columns hold distinct non-NULL values (every index of the engine is a unique index; duplicates and NULLs in "
